@@ -493,7 +493,7 @@ func (vc *VC) appendBuiltin(f *Frame, n *Node, in ssa.Instruction, c *ssa.CallCo
 	fits := vc.def("Bool", app("bvsle", newLen, x.C[3]), "fits")
 	fresh := vc.allocRaw(st, "append")
 	ncap := vc.freshS(SBV64, "acap")
-	vc.assume(and(app("bvsge", ncap, newLen), app("bvslt", ncap, bvLit(64, 1<<41))))
+	vc.assume(implies(n.Reach, and(app("bvsge", ncap, newLen), app("bvslt", ncap, bvLit(64, 1<<41)))))
 	base := vc.defS(SRef, ite(fits, x.C[0], fresh), "abase")
 	off := vc.defS(SBV64, ite(fits, x.C[1], bvLit(64, 0)), "aoff")
 	cp := vc.defS(SBV64, ite(fits, x.C[3], ncap), "acap")
